@@ -20,7 +20,7 @@ def lit_attrs(text: str):
     return num, ival
 
 NAMES = list("abcdefghijkl")
-FLAGSETS = [[], ["TWOSIDED"], ["MULTIPART"], ["TWOSIDED", "MULTIPART"], ["TWOSIDED", "MULTIPART", "MULTISTAGE"]]
+FLAGSETS = [[], ["TWOSIDED"], ["MULTIPART"], ["TWOSIDED", "MULTIPART"], ["TWOSIDED", "MULTIPART", "MULTISTAGE"], ["TWOSIDED", "MULTIPART", "MULTISTAGE"], ["MULTISTAGE"]]
 
 
 def abstract_tokens(s: str):
@@ -94,7 +94,10 @@ class Gen:
         r = self.r
         x = r.random()
         if d > 0 and x < 0.25:
-            o, c = ("(", ")") if r.random() < 0.85 else ("[", "]")
+            y = r.random()
+            if y < 0.2:      # a stage of a multistage formula (only read with the MULTISTAGE flag)
+                return ["["] + self.expr(d - 1) + ["~"] + self.expr(d - 1) + ["]"]
+            o, c = ("(", ")") if y < 0.9 else ("[", "]")
             return [o] + self.expr(d - 1) + [c]
         if x < 0.70:
             return [r.choice(NAMES[: r.randint(2, 12)])]
@@ -221,6 +224,7 @@ def run(ctx: Ctx) -> None:
             ctx.nontrivial.add(("T", r["s"], json.dumps(r["cfg"], sort_keys=True)))
     for r in recs[:: max(1, len(recs) // 2)][:2]:
         ctx.sample({"trace_record": {"formula": r["s"], "cfg": r["cfg"], "observed": r["r"]}})
+    ctx.notes["trace_records_nested_structure"] = sum(1 for r in recs if r["r"].startswith("tree#") and r["id"] not in rejected)
     ctx.notes["trace_records"] = len(recs)
     ctx.notes["trace_records_unmodelled"] = skipped
     ctx.notes["trace_records_accepted_ok"] = sum(1 for r in recs if r["r"] not in ("R", "X") and r["id"] not in rejected)
